@@ -16,7 +16,7 @@ def cache_disabled():
 
 CONFIG = '''grammar: %(repo)s/data/grammar.lark
 template_dirs:
-  - %(repo)s/data/cpp/template
+%(tdirs)s  - %(repo)s/data/cpp/template
 trans_mapping: %(repo)s/data/i18n.yml
 input_globs:
 %(globs)s
@@ -37,7 +37,8 @@ exclude_patterns: []
 
 
 class Project:
-    def __init__(self, root, pkg='proj', output_dirs=None, cache_enabled=True, globs=None):
+    def __init__(self, root, pkg='proj', output_dirs=None, cache_enabled=True, globs=None, templates=None):
+        self.templates = templates or {}     # user templates (relative path -> text): a template directory in front of the stock one
         self.root = root
         self.pkg = pkg
         self.output_dirs = output_dirs or ['./out']
@@ -45,12 +46,16 @@ class Project:
         os.makedirs(os.path.join(root, pkg), exist_ok=True)
         open(os.path.join(root, pkg, '__init__.py'), 'w').close()
         self.globs = globs or ['%s/*.py' % pkg]
+        for rel, text in self.templates.items():
+            os.makedirs(os.path.dirname(os.path.join(root, 'templates', rel)), exist_ok=True)
+            with open(os.path.join(root, 'templates', rel), 'w') as f:
+                f.write(text)
         self.write_config()
 
     def write_config(self):
         di = '' if self.cache_enabled else 'di:\n  rogw.tranp.cache.cache.CacheSetting: cli.cache_disabled\n'
         with open(os.path.join(self.root, 'config.yml'), 'w') as f:
-            f.write(CONFIG % dict(repo=lib.REPO, globs='\n'.join('  - %s' % g for g in self.globs), outs='\n'.join('  - "%s"' % o for o in self.output_dirs), di=di))
+            f.write(CONFIG % dict(repo=lib.REPO, tdirs='  - templates\n' if self.templates else '', globs='\n'.join('  - %s' % g for g in self.globs), outs='\n'.join('  - "%s"' % o for o in self.output_dirs), di=di))
 
     def path(self, name):
         return os.path.join(self.root, self.pkg, name + '.py')
